@@ -3,6 +3,7 @@
 package main
 
 import (
+	"errors"
 	"fmt"
 	"sort"
 	"strings"
@@ -298,6 +299,7 @@ type world struct {
 	situation string // steady | mid-prune | after-cancel | after-failed-write | after-crash-mid-prune | after-restart
 	quiescent bool
 	isFork    bool
+	migrated  bool // the history-pruner migration has rewritten this database: findings carry it in their sig
 	// min-age: the pruner compares block timestamps with wall-clock now-minAge; the harness recomputes that
 	// cut-off from the same clock whenever it predicts a decision, and drops the case if the clock moved
 	// across a block timestamp in between (never observed on an idle machine; seen once under heavy load)
@@ -349,6 +351,11 @@ func (w *world) mismatch(sig string, input any, model, impl string) {
 }
 
 func (w *world) violate(sig, what string) {
+	// attribute a finding to its cause: whatever shows up on a database the migration has rewritten carries
+	// that fact, also when a later (correct) prune has brought the situation back to "steady"
+	if w.migrated && !strings.Contains(sig, "migration") {
+		sig += "-on-migrated-db"
+	}
 	w.res.Violate(lib.Violation{Sig: sig, What: what, Replay: w.replay()})
 }
 
@@ -1010,6 +1017,7 @@ func (w *world) observe() {
 
 	// --- persisted aggregated bloom windows: which exist on disk, model vs implementation vs property
 	w.bloomWindows()
+	w.floorsTie()
 
 	// --- property oracle on the real answers
 	w.oracle(items, headClass, headDet)
@@ -1093,6 +1101,54 @@ func (w *world) oracle(items []obsItem, headClass, headDet string) {
 			// below the reported floor the probe must say pruned
 			if it.model == "requireRetained" && it.n < oldest && it.class != "pruned" {
 				w.violate("below-floor-not-reported-pruned-"+sit, where)
+			}
+		}
+	}
+}
+
+// floorsTie compares the two floors the node exposes with the model's: OldestRetainedBlock (durable) and the
+// shared RetentionFloor as RequireStateRetainedByBlockNumber applies it; and BlockPrunedError.OldestRetained.
+func (w *world) floorsTie() {
+	info, err := w.drv.Ask("info")
+	if err != nil {
+		return
+	}
+	f := strings.Fields(info) // height l1 floorState pending sampled job oldest
+	if len(f) != 7 {
+		return
+	}
+	w.res.Compared(2)
+	implOldest := "-"
+	oldest, oerr := pruner.OldestRetainedBlock(w.nodeDB)
+	if oerr == nil {
+		implOldest = fmt.Sprint(oldest)
+	}
+	if f[6] != implOldest {
+		w.mismatch("oldest-retained", map[string]any{"height": w.height, "situation": w.situation}, f[6], implOldest)
+	}
+	// lowest block number the shared floor lets through = floorState-1 (seeded)
+	if w.height >= 0 && f[2] != "0" {
+		var fs uint64
+		fmt.Sscan(f[2], &fs)
+		implFloor := uint64(w.height) + 1
+		for n := uint64(0); int(n) <= w.height; n++ {
+			if pruner.RequireStateRetainedByBlockNumber(w.nodeDB, w.floor, n) == nil {
+				implFloor = n
+				break
+			}
+		}
+		if want := min(fs-1, uint64(w.height)+1); implFloor != want {
+			w.mismatch("shared-floor", map[string]any{"height": w.height, "situation": w.situation}, fmt.Sprint(want), fmt.Sprint(implFloor))
+		}
+	}
+	// the error a user sees below the floor names the floor
+	if oerr == nil && oldest > 0 {
+		var pe *pruner.BlockPrunedError
+		if e := pruner.RequireRetained(w.nodeDB, oldest-1); errors.As(e, &pe) {
+			if pe.OldestRetained != oldest || pe.BlockNumber != oldest-1 {
+				w.violate("pruned-error-names-wrong-floor-"+w.situation, fmt.Sprintf(
+					"RequireRetained(%d) = BlockPrunedError{BlockNumber: %d, OldestRetained: %d}, oldest retained block is %d",
+					oldest-1, pe.BlockNumber, pe.OldestRetained, oldest))
 			}
 		}
 	}
